@@ -286,6 +286,8 @@ def round9_cases(thorough):
     cs = [{"mode": "mapping_window", "k": k, "reads": m, "side": sd} for k, m in ((1, 1), (3, 2), (3, 7), (2, 0)) for sd in (0, 1)]
     cs += [{"mode": "copy_ctx_exit", "side": 0, "point": p, "reads": r} for p, r in ((1, 100), (100, 9000), (7, 15000))]
     cs += [{"mode": "copy_ctx_exit", "side": 1, "point": 50, "reads": 12000}]
+    # round 10: ReadExact / ReadExactZeroCopy pending on a polling reader ((0, nil) when idle, no Close) when Close arrives
+    cs += [{"mode": "stream_poll", "k": k} for k in (0, 1)]
     return cs
 
 
@@ -441,7 +443,7 @@ def run(ctx, only_cases=None):
         pinfo = vlib.coq_properties("C16")
         vlib.coq_make(["Proofs/SideC16.vo"])
         vlib.proof_coverage(ctx, pinfo, "make -C coq Properties/C16.vo Proofs/SideC16.vo && coqc Properties/C16.v (Print Assumptions audit)",
-                            extra_obligations=21)
+                            extra_obligations=22)
     except vlib.Broken as b:
         broken = b
     ibin = None
@@ -558,7 +560,7 @@ def run(ctx, only_cases=None):
             nontriv.add(json.dumps(c, sort_keys=True))
         elif c["mode"] == "bridge_stall" or (c["mode"] == "stream_queue" and o.get("b_parked_on_lock")):
             nontriv.add(json.dumps(c, sort_keys=True))
-        elif (c["mode"] == "mapping_window" and c["reads"] != 0) or c["mode"] == "copy_ctx_exit" or (c["mode"] == "mapping_live" and c["k"] > 0) or c["mode"] == "tunnel_reregister" or c["mode"] in ("mapping_stats", "bridge_hung_backend") or c["mode"] == "session_overlap" or (c["mode"] == "res_mgr" and len(c["events"]) >= 3) or (c["mode"] == "bridge_throttle" and o.get("parked_in_throttle")):
+        elif c["mode"] == "stream_poll" or (c["mode"] == "mapping_window" and c["reads"] != 0) or c["mode"] == "copy_ctx_exit" or (c["mode"] == "mapping_live" and c["k"] > 0) or c["mode"] == "tunnel_reregister" or c["mode"] in ("mapping_stats", "bridge_hung_backend") or c["mode"] == "session_overlap" or (c["mode"] == "res_mgr" and len(c["events"]) >= 3) or (c["mode"] == "bridge_throttle" and o.get("parked_in_throttle")):
             nontriv.add(json.dumps(c, sort_keys=True))
         elif c["mode"] == "fault_close" and c["reads"] != 0:
             nontriv.add(json.dumps(c, sort_keys=True))
